@@ -41,8 +41,9 @@ var gKinds = []string{"find-coordinator", "join", "sync", "heartbeat", "commit",
 type cgMember struct {
 	Behaviour  string // all | prefix | return-after-k | block | setup-error | cancel-after-k
 	K          int
-	JoinAfter  int // start once this many messages were delivered group-wide
-	CloseAfter int // Close() the group after this many deliveries to this member (-1 never)
+	JoinAfter  int  // start once this many messages were delivered group-wide
+	CloseAfter int  // Close() the group after this many deliveries to this member (-1 never)
+	CloseIdle  bool // Close() the group from another goroutine while a session without any claim is running
 	MaxCalls   int
 }
 
@@ -86,18 +87,19 @@ type cgEv struct {
 }
 
 type cgResult struct {
-	sc         *cgScenario
-	newErr     error
-	events     []cgEv
-	group      []sarama.VSimGroupEvent
-	fetched    []sarama.VSimFetched
-	hooks      []hookEv
-	stuck      bool
-	stuckWho   []string
-	inconcl    string
-	logEnd     int64
-	faultsUsed map[string]int
-	stored     map[string]int64
+	sc            *cgScenario
+	newErr        error
+	events        []cgEv
+	group         []sarama.VSimGroupEvent
+	fetched       []sarama.VSimFetched
+	hooks         []hookEv
+	stuck         bool
+	stuckWho      []string
+	inconcl       string
+	logEnd        int64
+	closeLivelock bool
+	faultsUsed    map[string]int
+	stored        map[string]int64
 }
 
 type offMap struct {
@@ -157,6 +159,26 @@ func (h *cgHandler) Setup(s sarama.ConsumerGroupSession) error {
 		claims[t] = append([]int32(nil), ps...)
 	}
 	h.log(cgEv{Kind: "setup", MemberID: s.MemberID(), Gen: s.GenerationID(), Claims: claims})
+	nclaims := 0
+	for _, ps := range claims {
+		nclaims += len(ps)
+	}
+	if nclaims == 0 {
+		if h.spec.CloseIdle {
+			go func() {
+				time.Sleep(5 * time.Millisecond)
+				h.closeGroup()
+			}()
+		} else {
+			// driver-side idle timer (workload only): a session without claims is ended after a while
+			cancel, _ := h.cancel.Load().(func())
+			time.AfterFunc(300*time.Millisecond, func() {
+				if cancel != nil {
+					cancel()
+				}
+			})
+		}
+	}
 	var err error
 	if h.spec.Behaviour == "setup-error" && atomic.CompareAndSwapInt32(h.setupErrDone, 0, 1) {
 		err = fmt.Errorf("scripted setup error")
@@ -287,6 +309,7 @@ func cgScenarioFor(rng *rand.Rand, multi bool) *cgScenario {
 		if rng.Intn(5) == 0 {
 			m.CloseAfter = 1 + rng.Intn(sc.LogN)
 		}
+		m.CloseIdle = rng.Intn(3) == 0
 		sc.Members = append(sc.Members, m)
 	}
 	for _, t := range sc.Topics {
@@ -336,6 +359,13 @@ func cgCore(tier string) []*cgScenario {
 					Members: []cgMember{{Behaviour: beh, K: 4, CloseAfter: -1, MaxCalls: 6}}, Faults: map[string][]int{kind: w}, Stored: map[string]int64{"t/1": 3}}
 				out = append(out, sc)
 			}
+		}
+	}
+	// a member that gets no partition (more members than partitions) and is closed while its empty session runs
+	for _, strat := range []string{"range", "roundrobin", "sticky"} {
+		for _, beh := range []string{"all", "block"} {
+			out = append(out, &cgScenario{Brokers: 1, Topics: []string{"t"}, Parts: 1, LogN: 20, Strategy: strat, Auto: true, Oldest: true, Faults: map[string][]int{}, Stored: map[string]int64{},
+				Members: []cgMember{{Behaviour: beh, K: 3, CloseAfter: -1, MaxCalls: 4, CloseIdle: true}, {Behaviour: beh, K: 3, CloseAfter: -1, MaxCalls: 4, CloseIdle: true}}})
 		}
 	}
 	return out
@@ -420,7 +450,8 @@ func runGroup(sc *cgScenario, rng *rand.Rand) *cgResult {
 	}
 
 	var total int64
-	var running int64 // members that have started and not finished
+	closeStart := make([]int64, len(sc.Members)) // progress counter when a member's Close began (0 = not yet, -1 = returned)
+	var running int64                            // members that have started and not finished
 	var wg sync.WaitGroup
 	root, rootCancel := context.WithCancel(context.Background())
 	defer rootCancel()
@@ -490,6 +521,8 @@ func runGroup(sc *cgScenario, rng *rand.Rand) *cgResult {
 			closeGroup := func() {
 				closeOnce.Do(func() {
 					h.log(cgEv{Kind: "close-call"})
+					atomic.StoreInt64(&closeStart[i], sink.total()+1)
+					defer atomic.StoreInt64(&closeStart[i], -1)
 					e := g.Close()
 					es := ""
 					if e != nil {
@@ -534,7 +567,30 @@ func runGroup(sc *cgScenario, rng *rand.Rand) *cgResult {
 	}
 	done := make(chan struct{})
 	go func() { wg.Wait(); close(done) }()
-	ok, stuck := waitQuiescent(done, sink, 10*time.Second, 90*time.Second)
+	// bounded progress in logical steps: a Close may not outlast 4000 further observable events
+	both := make(chan struct{})
+	var closeLivelock int32
+	go func() {
+		defer close(both)
+		for {
+			select {
+			case <-done:
+				return
+			case <-time.After(20 * time.Millisecond):
+			}
+			for i := range closeStart {
+				if st := atomic.LoadInt64(&closeStart[i]); st > 0 && sink.total()-st > 4000 {
+					atomic.StoreInt32(&closeLivelock, 1)
+					return
+				}
+			}
+		}
+	}()
+	ok, stuck := waitQuiescent(both, sink, 10*time.Second, 90*time.Second)
+	if atomic.LoadInt32(&closeLivelock) == 1 {
+		ok, stuck = false, true
+		res.closeLivelock = true
+	}
 	if !ok {
 		if stuck {
 			res.stuck = true
@@ -927,7 +983,12 @@ func judgeGroup(res *cgResult) proto.Rec {
 		if n := len(res.events); n > 0 {
 			trigger = res.events[n-1].Kind
 		}
-		vs.add("consume-stuck", "after="+trigger, "members did not finish and nothing moved any more: "+strings.Join(res.stuckWho, "; "))
+		how := "nothing moved any more"
+		if res.closeLivelock {
+			how = "a ConsumerGroup.Close did not return while 4000 further observable events went by (background activity only)"
+			trigger = "close-call"
+		}
+		vs.add("consume-stuck", "after="+trigger, "members did not finish: "+how+"; parked: "+strings.Join(res.stuckWho, "; "))
 	} else if res.inconcl != "" {
 		rec.Verdict, rec.Why = "inconclusive", res.inconcl
 	}
